@@ -192,7 +192,7 @@ def handle (j : Json) : R Json := do
         (← person.getArr?).toList.mapM fun comp => do (← comp.getArr?).toList.mapM f64OfJson
       pure ({ id := ← getNat fr "id", people } : OPFrame Float)
     let nf := (j.getObjValAs? Nat "num_frames").toOption
-    match loadOpenpose floatScalar floatIsZero (← getNat j "total_points") frames (← f64OfJson (← j.getObjVal? "fps")) nf with
+    match loadOpenpose floatScalar floatIsZero (← getNatArr (← j.getObjVal? "sizes")) frames (← f64OfJson (← j.getObjVal? "fps")) nf with
     | some b => pure (Json.mkObj [("ok", Json.bool true), ("body", pbodyToJson b)])
     | none => pure failJ
   | "dropout" =>
